@@ -278,14 +278,20 @@ func paramsDisc(w *mc.World, mod, storeKey string, key []byte, into interface {
 	return Disc{Kind: "params." + mod, Detail: detail}
 }
 
-func compareAnchor(w *mc.World, m *model.State, wrk bool) []Disc {
-	var out []Disc
+func compareAnchor(w *mc.World, m *model.State, wrk bool) (out []Disc) {
 	add := func(d ...Disc) { out = append(out, d...) }
 	a := &m.Bcn
 	mod := "bcn"
 	if wrk {
 		a, mod = &m.Wrk, "wrk"
 	}
+	// a registry that cannot be read back at all (a keeper panics while iterating its own store) is
+	// a registry that does not say who registered what
+	defer func() {
+		if p := recover(); p != nil {
+			out = append(out, Disc{Kind: "anch.identity", Detail: fmt.Sprintf("%s: reading the module's registry on a reachable committed state panics: %v", mod, p)})
+		}
+	}()
 	// params
 	if wrk {
 		var pr wrkchaintypes.QueryParamsResponse
